@@ -251,7 +251,14 @@ func (g *gen) opC15() Op {
 				return v
 			}
 		}
-		return g.val(1, true)
+		v := g.val(1, true)
+		for v.K == "rv" {
+			// a reflect.Value holding an error under %w: fmt.Errorf wraps the
+			// held error, and so does redact; whether that operand "holds an
+			// error" in the statement's sense is unclear - not generated here
+			v = g.val(1, true)
+		}
+		return v
 	}
 	nArgs := g.r.Intn(4)
 	var args []Val
